@@ -94,3 +94,70 @@ Fixpoint array_cases (w : Z) (elems : list expr) (i : Z) : list (option (list pa
   end.
 Definition mk_array (elems : list expr) (index : expr) : expr :=
   ESwitch index (array_cases (ewidth index) elems 0).
+
+(* ---- Python builtins used by Value.__getitem__ (trusted reading of CPython; validated against the interpreter
+   by the C01 correspondence run, stream "pyb") *)
+Record pykey := Key { kstart : option Z; kstop : option Z; kstep : option Z }.
+(* slice.indices(length): PySlice_AdjustIndices; ValueError for step 0 *)
+Definition py_adjust (len lower upper dflt : Z) (x : option Z) : Z :=
+  match x with
+  | None => dflt
+  | Some i => if i <? 0 then Z.max (i + len) lower else Z.min i upper
+  end.
+Definition py_key_indices (len : Z) (k : pykey) : option (Z * Z * Z) :=
+  let step := match kstep k with None => 1 | Some s => s end in
+  if step =? 0 then None else
+  let lower := if step <? 0 then -1 else 0 in
+  let upper := if step <? 0 then len - 1 else len in
+  Some (py_adjust len lower upper (if step <? 0 then upper else lower) (kstart k),
+        py_adjust len lower upper (if step <? 0 then lower else upper) (kstop k),
+        step).
+(* list(range(start, stop, step)), step <> 0 *)
+Fixpoint py_range_n (start step : Z) (n : nat) : list Z :=
+  match n with O => [] | S m => start :: py_range_n (start + step) step m end.
+Definition py_range (start stop step : Z) : list Z := py_range_n start step (Z.to_nat (range_len start stop step)).
+(* key in range(lo, hi) *)
+Definition py_in_range (key lo hi : Z) : bool := (lo <=? key) && (key <? hi).
+
+Fixpoint opt_map {A B : Type} (f : A -> option B) (l : list A) : option (list B) :=
+  match l with
+  | [] => Some []
+  | x :: r => match f x with
+              | None => None
+              | Some y => match opt_map f r with None => None | Some ys => Some (y :: ys) end
+              end
+  end.
+
+(* Value.__getitem__(key) for an int key (IndexError outside range(-len, len)) and a slice key *)
+Definition mk_getitem_int (e : expr) (k : Z) : option expr :=
+  if py_in_range k (- ewidth e) (ewidth e) then Some (mk_index e k) else None.
+Definition mk_getitem_key (e : expr) (k : pykey) : option expr :=
+  match py_key_indices (ewidth e) k with
+  | None => None
+  | Some (a, b, s) =>
+      if s =? 1 then Some (ESlice e a b)
+      else Some (mk_step_slice e a s (Z.to_nat (range_len a b s)))
+  end.
+
+(* bit_select / word_select: a constant offset whose window fits is folded into a plain slice *)
+Definition const_of (e : expr) : option Z := match e with EConst v s => Some (norm s v) | _ => None end.   (* Const.value *)
+Definition mk_bit_select (e off : expr) (w : Z) : option expr :=
+  match const_of off with
+  | Some v => if v + w <=? ewidth e then mk_getitem_key e (Key (Some v) (Some (v + w)) None)
+              else Some (EPart e off w 1)
+  | None => Some (EPart e off w 1)
+  end.
+Definition mk_word_select (e off : expr) (w : Z) : option expr :=
+  match const_of off with
+  | Some v => if (v + 1) * w <=? ewidth e then mk_getitem_key e (Key (Some (v * w)) (Some ((v + 1) * w)) None)
+              else Some (EPart e off w w)
+  | None => Some (EPart e off w w)
+  end.
+
+(* shift_left / shift_right with any integer amount (a negative amount goes the other way) *)
+Definition mk_shl (e : expr) (n : Z) : expr := if n <? 0 then mk_shift_right e (- n) else mk_shift_left e n.
+Definition mk_shr (e : expr) (n : Z) : expr := if n <? 0 then mk_shift_left e (- n) else mk_shift_right e n.
+
+(* result of a partial constructor as an expression: an exception becomes an ill-formed node (wf_expr = false) *)
+Definition bad_expr : expr := ESlice (EConst 0 (Sh 0 false)) 1 0.
+Definition oget (o : option expr) : expr := match o with Some e => e | None => bad_expr end.
